@@ -59,6 +59,22 @@ func toMap(n *Node, v reflect.Value) (any, IVal) {
 // Returns the two executions as cases (ids 2k and 2k+1) and the model-free comparison.
 func NewModesCase(g *Gen, id int) (*Case, *Case, string) {
 	n := g.Schema()
+	// custom functions that normalise the value through the pointer they are given: both modes hand them the
+	// destination itself (these cases are compared between the modes only: the model's custom functions are pure)
+	mutating := false
+	var mark func(x *Node)
+	mark = func(x *Node) {
+		if x.Kind == KCustom && g.R.Fork(uint64(0xc0de+len(x.Tests))).P(40) {
+			x.CustomMut, mutating = true, true
+		}
+		for _, f := range x.Fields {
+			mark(f.Node)
+		}
+		if x.Elem != nil {
+			mark(x.Elem)
+		}
+	}
+	mark(n)
 	rec := &Recorder{CtxKeys: ctxProbe}
 	t := TypeOf(n)
 	val := g.DestValue(n, t, true)
@@ -94,6 +110,7 @@ func NewModesCase(g *Gen, id int) (*Case, *Case, string) {
 		return c
 	}
 	cv, cp := mk(true, 2*id), mk(false, 2*id+1)
+	cv.SkipModel, cp.SkipModel = mutating, mutating
 	render := func(o *Observed) string {
 		var b strings.Builder
 		fmt.Fprintf(&b, "panic=%v nil=%v\n", o.Panic != "", o.Nil)
